@@ -176,3 +176,31 @@ Definition apply_sets (l : list (bytes * bytes)) (s : kvs) : kvs :=
    which received only its own group *)
 Definition plset_get (pnum : N) (l : list (bytes * bytes)) (k : bytes) : option bytes :=
   kv_get k (apply_sets (group_of (part_of (route_key k) pnum) (group_kvs pnum l)) []).
+
+(* ---------- MGET: the one multi-key command that is NOT split over the partitions ---------- *)
+(* server/server.go GetHandleNode: an MGET is executed by the partition of its first key, and only when every
+   key is owned by that partition; otherwise it is rejected (None). *)
+Definition kv_pstore (pnum : N) (s : kvs) (p : N) : kvs :=
+  filter (fun kv => part_of (route_key (fst kv)) pnum =? p) s.
+Definition mget_route (pnum : N) (ks : list bytes) : option N :=
+  match ks with
+  | [] => None
+  | k :: r => let p := part_of (route_key k) pnum in
+              if forallb (fun k' => part_of (route_key k') pnum =? p) r then Some p else None
+  end.
+Definition mget_reply (pnum : N) (ks : list bytes) (s : kvs) : option (list (option bytes)) :=
+  match mget_route pnum ks with
+  | None => None
+  | Some p => Some (map (fun k => kv_get k (kv_pstore pnum s p)) ks)
+  end.
+
+(* ---------- the per-partition size limit of merged commands ---------- *)
+(* node/util.go wrap*MergeCommandKK: a partition's sub-command with more than [lim] keys fails; a failed part
+   fails the whole merged command (server/merge.go doMergeKeysCommand) — the count of the other parts is never
+   answered alone. *)
+Definition merged_over_limit (lim : nat) (pnum : N) (ks : list bytes) : bool :=
+  existsb (fun e => Nat.ltb lim (length (snd e))) (group_keys pnum ks).
+Definition merged_exists_lim (lim : nat) (pnum : N) (ks : list bytes) (s : store) : option N :=
+  if merged_over_limit lim pnum ks then None else Some (merged_exists pnum ks s).
+Definition merged_del_lim (lim : nat) (pnum : N) (ks : list bytes) (s : store) : option N :=
+  if merged_over_limit lim pnum ks then None else Some (merged_del pnum ks s).
